@@ -52,10 +52,11 @@ const (
 	VFunc                 // = function() end        (must raise)
 	VLate                 // = t, where t gets its __close only after the declaration (must raise)
 	HSwap                 // handler replaced (another function) after the declaration: the current one is called
+	HRemove               // __close removed after the declaration: the manual does not say what happens (reference: Unspec)
 	NDKinds
 )
 
-var dkindName = [...]string{"hlog", "hraise", "hraiset", "hyield", "false", "nil", "nometa", "plainmt", "string", "number", "func", "late", "hswap"}
+var dkindName = [...]string{"hlog", "hraise", "hraiset", "hyield", "false", "nil", "nometa", "plainmt", "string", "number", "func", "late", "hswap", "hremove"}
 
 func (k DKind) String() string { return dkindName[k] }
 
@@ -330,7 +331,7 @@ func (s *Spec) Lua() string {
 	if used[HYield] {
 		w.ln(preHYield)
 	}
-	if used[HSwap] {
+	if used[HSwap] || used[HRemove] {
 		w.ln(preHSwap)
 	}
 	if s.Exit == XReturnCall {
@@ -413,6 +414,9 @@ func (s *Spec) decls(w *writer, level, slot int) {
 			w.ln(`local t%s = {name = "%s"}`, n, n)
 			w.ln(`local %s <close> = t%s`, n, n)
 			w.ln(`setmetatable(t%s, {__close = function(o, e) emit("close", o.name, e) end})`, n)
+		case HRemove:
+			w.ln(`local %s <close> = hswap("%s")`, n, n)
+			w.ln(`getmetatable(%s).__close = nil`, n)
 		case HSwap:
 			w.ln(`local %s <close> = hswap("%s")`, n, n)
 			w.ln(`getmetatable(%s).__close = function(o, e) emit("close", o.name, e) end`, n)
